@@ -85,6 +85,7 @@ class Ctx:
             # the hash seed of this interpreter is part of what replays the execution (set / str-keyed dict order)
             extra = dict(extra) if isinstance(extra, dict) else ({} if extra is None else {'value': extra})
             extra.setdefault('hashseed', os.environ.get('PYTHONHASHSEED', '0'))
+            extra.setdefault('debug_logging', bool(self.spec.get('debug_logging')))
             self.violations.append({'signature': sig, 'message': str(message)[:2000], 'replay': replay,
                                     'extra': extra})
 
